@@ -62,7 +62,29 @@ Factors == { FactorScript("factors-M-" \o ToString(fmt), fmt, 0, Bound10, {0, -7
            \cup { FactorScript("factors-K-" \o ToString(lin), 2, lin, {3}, {-17}, -8..7, -8..7) : lin \in {0, 9} }
            \cup (IF Full THEN { FactorScript("factors-MB", 1, 0, Bound10, Bound10, {-1}, {1}) } ELSE {})
 
-Scripts == CASE Family = "sweep" -> Sweeps [] Family = "misc" -> RefusalScripts \cup FlagScripts \cup Factors
+\* a converted reading of exactly zero as the first (and a later) reading of a freshly built reader, for every
+\* linearisation: ln, log10, log2 give -infinity, 1/x +infinity, e^x, 10^x, 2^x give 1 - none of them 0
+ZeroScripts ==
+  { LET r == Rec(lin, v[1], v[2], v[3], 0, 0, 0, 40 + lin)
+        raws == << v[4], v[4], (v[4] + 9) % 256, v[4] >> IN
+    Script("zero-" \o ToString(lin) \o "-" \o ToString(v[1]) \o "-" \o ToString(v[2]) \o "-" \o ToString(v[4]),
+           << NewReader("z", r, TRUE) >> \o Flatten([j \in 1..4 |-> << ReadCall("z", r, raws[j], TRUE, TRUE, FALSE), ReadReact(r, j, raws[j], TRUE, TRUE, FALSE) >>]), "zero")
+    \* <<format, M, B, raw>>: unsigned 0; one's complement +0 and -0; two's complement 0 and an offset that cancels (2 * -5 + 10)
+    : lin \in 0..11, v \in { <<0, 3, 0, 0>>, <<1, 3, 0, 0>>, <<1, 3, 0, 255>>, <<2, 3, 0, 0>>, <<2, 2, 10, 251>>, <<0, 1, -7, 7>> } }
+\* C10 for a command addressed to a non-zero LUN: the responder answers from that LUN, first with node busy / timeout,
+\* then with the reading; the library must re-send the same request and return the first final answer
+BusyReact(r, j, cc) ==
+  [React0 EXCEPT !.datagrams = << Dg(SessPacket(S, LE32s(j), B(MsgRspBytes(129, 5, 0, 1, r.OwnerLUN, 45, cc, <<>>)), [i \in 1..16 |-> (i + j) % 256]), [kind |-> "busy"]) >>]
+LunScripts ==
+  { LET r == Rec(0, 0, 2, 1, 0, 0, lun, 50 + lun)
+        one == ReadCall("l", r, 77, TRUE, TRUE, FALSE)
+        rq == one.exp.reqs[1]
+        call(n) == [one EXCEPT !.exp = [@ EXCEPT !.prop = "C10", !.reqs = [i \in 1..n |-> rq]]] IN
+    Script("lun-" \o ToString(lun),
+           << NewReader("l", r, TRUE), call(1), ReadReact(r, 1, 77, TRUE, TRUE, FALSE),
+              call(2), BusyReact(r, 2, 192), ReadReact(r, 3, 77, TRUE, TRUE, FALSE),
+              call(3), BusyReact(r, 4, 195), BusyReact(r, 5, 192), ReadReact(r, 6, 77, TRUE, TRUE, FALSE) >>, "lun") : lun \in 0..3 }
+Scripts == CASE Family = "sweep" -> Sweeps [] Family = "misc" -> RefusalScripts \cup FlagScripts \cup Factors \cup ZeroScripts [] Family = "lun" -> LunScripts
 Header == [header |-> TRUE, family |-> "sensor", defs |-> SessionDefs(S), stable |-> <<"SIK", "kB", "kR">>,
            session |-> SessionRecipes(S), prefixes |-> [hs |-> HandshakeSteps(S)]]
 ASSUME PrintT(<<"HEADER", ToJson(Header)>>)
